@@ -812,6 +812,65 @@ GUARDED = [
     ('LFRicLoopFuseTrans', 'validate'),
 ]
 
+def check_bound_symbols(idx, run):
+    """C20.R4: the variables loopN_start / loopN_stop are assigned per
+    position in the schedule; a loop has to take the pair that belongs to
+    its *current* position every time it is asked (loops are moved and
+    fused), so the position is recomputed on every path - no result of an
+    earlier call is returned."""
+    from sa.obligations import skips_consult
+    cls = idx.get_class("psyclone.domain.lfric.lfric_loop.LFRicLoop")
+    for pname, suffix in (("start_expr", "_start"), ("stop_expr", "_stop")):
+        func = cls.properties.get(pname) if hasattr(cls, "properties") \
+            else None
+        if func is None:
+            func = cls.getters.get(pname) if hasattr(cls, "getters") else None
+        if func is None:
+            for node in cls.node.body:
+                if isinstance(node, ast.FunctionDef) and node.name == pname \
+                        and any("property" in ast.unparse(d)
+                                for d in node.decorator_list):
+                    func = node
+        if func is None:
+            raise AnalysisError(f"LFRicLoop.{pname} not found")
+        early = []
+        for st in ast.walk(func):
+            if isinstance(st, ast.Return) and st.value is not None:
+                txt = ast.unparse(st.value)
+                if "self.children[" in txt or "self._children[" in txt:
+                    # allowed only directly after the assignment of the
+                    # freshly computed bound
+                    early.append(st)
+        body = list(ast.walk(func))
+        bad = []
+        for ret in early:
+            target = ast.unparse(ret.value)
+            # the statement before the return (same block) must assign it
+            for blk in body:
+                for field in ("body", "orelse"):
+                    stmts = getattr(blk, field, None)
+                    if isinstance(stmts, list) and ret in stmts:
+                        k = stmts.index(ret)
+                        prev = stmts[k - 1] if k else None
+                        if not (isinstance(prev, ast.Assign) and
+                                ast.unparse(prev.targets[0]) == target):
+                            bad.append(ret)
+        run.check("C20.R4", not bad, f"LFRicLoop.{pname}",
+                  "the bound variable follows the loop's current position",
+                  f"{pname} can return a previously stored bound "
+                  f"(line {bad[0].lineno if bad else 0}) without looking the "
+                  f"loop's position up again: after an earlier pair of loops "
+                  f"was fused the loop keeps loopN{suffix} of its old "
+                  f"position, i.e. the DoF count of another field",
+                  loc(cls.module, func))
+        res = skips_consult(func, ".loops()", early_ok=(
+            "self._loop_type == 'colour'",))
+        run.check("C20.R4", res is None, f"LFRicLoop.{pname}",
+                  "position looked up on every non-colour path",
+                  f"{pname} can finish without consulting the schedule's "
+                  f"loop list ({res})", loc(cls.module, func))
+
+
 def check(idx, run):
     run.explanation = __doc__
     from sa.guards import check_guards
@@ -819,6 +878,7 @@ def check(idx, run):
     reductions = check_builtins(idx, run)
     check_reduction_flag(idx, run, reductions)
     check_dof_bounds(idx, run)
+    check_bound_symbols(idx, run)
     check_access_info(idx, run)
     check_fused_reductions(idx, run)
     run.exhaustive = True
